@@ -21,6 +21,7 @@ EXPLANATION = (
     "years*12+months, __neg__ swaps the endpoints. NOT decided: that the three-way month branch is right for "
     "every (day, month-length) coincidence - both back ends are only shown to implement the same branch."
     ' Also: the native copies built in Interval.__init__ for precise_diff carry every field (RECON); the pure-Python UTC shift moves each end point whenever its own offset is non-zero, under `not in_same_tz or total_days == 0`; the compiled UTC normalisation of both end points equals, path summary by path summary, a reference model (carries at 60/60/24, then the date rolled into month/year), and DateTimeInfo is ordered by the full broken-down time.'
+    ' As built (added): LENGTH.exact - Interval.__new__ evaluated on naive, UTC and date pairs up to 9998 years apart must hand the Duration constructor the exact difference (remaining_seconds / microseconds are read from it); DIRECTION.tabulated - b - a with a native operand on either side is the interval between exactly a and b.'
 )
 
 ROLE_ORDER = ["microsecond", "second", "minute", "hour", "day", "month", "year"]
@@ -1039,6 +1040,7 @@ def run(ctx) -> None:
     ctx.step(_backend_switch, ctx)
     ctx.step(_interval_props, ctx)
     from . import C05
+    ctx.step(C05._direction_tabulate, ctx)         # `b - a` (pendulum or native operand on either side) is the interval between exactly a and b
     ctx.step(C05._length_tabulate, ctx, True)      # remaining_seconds / microseconds are read from the Duration built in Interval.__new__: its length must be exact
     from ..rules import addduration as AD
     from . import C15
